@@ -653,6 +653,46 @@ func runC05(c *Ctx) {
 
 	// ---- R10 routes are registered in declaration order
 	c.rule("C05-R10", "ORD: no route is registered (Router.RegisterRoute, directly or through a registering helper of cmd/glyph / pkg/server) from inside a loop that ranges over a Go map: the router breaks ties between equally specific patterns by registration order, and Go's map order is random - ranging the bytecode table instead of the module's items makes the winner of /t/:x/c vs /t/b/:y differ from load to load (and from the interpreter)")
+
+	// one pass: with equal specificity the earlier declaration wins, and "earlier" is the position in the router's
+	// list - so all HTTP routes of a module are registered by one loop over the declarations. A second loop that
+	// registers "the rest" afterwards (routes that fell back to the interpreter) puts an earlier declaration behind a
+	// later one
+	if sr := c.fn(glyphCmd, "setupRoutes"); sr != nil {
+		var regs []ssa.Instruction
+		for _, f := range withAnon(sr) {
+			eachInstr(f, func(_ *ssa.BasicBlock, _ int, ins ssa.Instruction) {
+				if isCallTo(ins, modPath+"/cmd/glyph.registerRoute", modPath+"/cmd/glyph.registerCompiledRoute") {
+					regs = append(regs, ins)
+				}
+			})
+		}
+		loops := naturalLoops(sr)
+		loopOf := func(ins ssa.Instruction) *loop {
+			var best *loop
+			for _, lp := range loops {
+				if lp.body[ins.Block()] && (best == nil || len(lp.body) < len(best.body)) {
+					best = lp
+				}
+			}
+			return best
+		}
+		bad := false
+		var bp []*ssa.BasicBlock
+		var at token.Pos
+		for _, a := range regs {
+			for _, b := range regs {
+				if a == b || a.Parent() != sr || b.Parent() != sr || loopOf(a) == loopOf(b) {
+					continue
+				}
+				q := &pathQuery{fn: sr, target: func(x ssa.Instruction) bool { return x == b }}
+				if h, p := q.after(a); h != nil {
+					bad, bp, at = true, p, b.Pos()
+				}
+			}
+		}
+		c.ob("C05-R10", glyphCmd+".setupRoutes#routes-registered-in-one-pass", at, !bad && len(regs) > 0, "HTTP routes are registered by two loops that can both run for one module: the routes the second loop registers come after every route of the first in the router's list, whatever their place in the source - a later declaration of equal specificity then wins over an earlier one (in one execution mode only)", c.blockPath(bp)...)
+	}
 	{
 		registers := func(x ssa.Instruction) bool {
 			return isCallTo(x, serverPath+".Router.RegisterRoute", serverPath+".Server.RegisterRoute")
